@@ -27,7 +27,7 @@ func (c02) Race() bool             { return false }
 func (c02) CaseTimeout(string) int { return 300 }
 
 func (c02) Rule() string {
-	return "case kinds: (S) a generated client schema (objects, interfaces, unions, enums incl. @inaccessible values, built-in / custom / BigInt / custom-resolve scalars, lists nested up to depth 3 with every nullability mix; odd cases use the dense profile) and " + fmt.Sprint(treesPerCase) + " normalised operations over it, each turned into a response plan tree by a mirror of plan.Visitor.EnterField/resolveFieldValue/resolveOnTypeNames followed by the repository's own post-processor (merge_fields); some trees carry planner merge aliases (response key != data key). Per tree " + fmt.Sprint(variantsPerTree) + " payloads are built FROM the tree (well-typed by construction, runtime types drawn from PossibleTypes, legitimate nulls, extra keys, escape-heavy strings) and spoiled by 0-3 recorded offences (null, missing key, every wrong JSON kind, invalid / inaccessible enum value, unknown / missing / null / non-string __typename, array<->object), rendered through Resolvable.Init/Resolve and, for a slice, Resolver.ResolveGraphQLResponse with a static data source. (E) the same schemas and operations planned by the real normaliser + validator + planner + post-processor; the real plan tree is compared with the mirror's and used for the oracle while ExecutionEngine.Execute renders with a GraphQL data source whose transport returns the payload. Every render is judged by the F2 reference. A render is non-trivial when at least one response position was compared; distinct by hash of (tree, payload)."
+	return "case kinds: (S) a generated client schema (objects, interfaces, unions, enums incl. @inaccessible values, built-in / custom / BigInt / custom-resolve scalars, lists nested up to depth 3 with every nullability mix; odd cases use the dense profile) and " + fmt.Sprint(treesPerCase) + " normalised operations over it, each turned into a response plan tree by a mirror of plan.Visitor.EnterField/resolveFieldValue/resolveOnTypeNames followed by the repository's own post-processor (merge_fields); some trees carry planner merge aliases (response key != data key). Per tree " + fmt.Sprint(variantsPerTree) + " payloads are built FROM the tree (well-typed by construction, runtime types drawn from PossibleTypes, legitimate nulls, extra keys, escape-heavy strings) and spoiled by 0-3 recorded offences (null, missing key, every wrong JSON kind, invalid / inaccessible enum value, unknown / missing / null / non-string __typename, array<->object), rendered through Resolvable.Init/Resolve and, for a slice, Resolver.ResolveGraphQLResponse with a static data source. (E) the same schemas and operations planned by the real normaliser + validator + planner + post-processor; the real plan tree is compared with the mirror's and used for the oracle while ExecutionEngine.Execute renders with a GraphQL data source whose transport returns the payload. Every render is judged by the F2 reference. (O) the option dimension, drawn from its own PRNG stream so that the base renders stay what they were: every (tree, payload) of the Resolvable driver is rendered a second time under a drawn non-default option set; per case one resolver-level option set is drawn for which a Resolver (S: 3 extra renders per tree) and an ExecutionEngine (E: every render repeated) are built, request-level options are drawn per render. Each option is on in a PRNG-determined share of these renders: ResolvableOptions truncate-floats (30%, 60% when the tree has Float leaves), value-completion-in-extensions (35%), cost control (20%), suppress-fetch-errors / replace-invalid-var-error (8%); Context RenameTypeNames of 1-2 type names of the tree (15%, 45% when a __typename is selected), identity field value renderer (15%), query plan / inline arguments (15%), trace / rate-limit / authorizer response extensions (10%), SkipLoader (2%); ResolverOptions subgraph-extension forwarding with allow-list and first/last-write (50% of cases; the subgraph then sends extensions incl. reserved, duplicate and escape-needing keys), subgraph-error shaping (pass-through / wrapped, propagate, rewrite paths, omit locations / extensions, allowed extension and error fields, service name, default code; 50% of cases; the subgraph sends errors next to data in 35% of those renders). Float payload values come from a table of fractions, small / large / at-and-beyond-int64 / negative integral floats, -0 and exponent spellings. A render is non-trivial when at least one response position was compared; distinct by hash of (tree, payload, option set)."
 }
 
 func (c02) Assumptions() []string {
@@ -37,13 +37,24 @@ func (c02) Assumptions() []string {
 		"for ill-typed offences only what the statement says is demanded: type-safe output, surviving non-null leaves equal the payload's, every nulled position is an ancestor-or-self of an offence, every replacement is covered by an error whose path is the response path of an offending position; which ancestor takes the null is judged only for null/missing-only payloads",
 		"number and order of errors, error messages and extensions are not judged; errors without a path are never counted as covering a replacement",
 		"the runtime type of a concrete object position is its declared type when the payload carries no __typename",
-		"Apollo-compatibility options, field authorisation, @defer, value renderers and __skipErrors markers are left at their defaults / unused",
+		"field authorisation rules, @defer and __skipErrors markers are unused; value renderers other than the identity renderer are unused",
+		"float truncation: GraphQL Float is an IEEE 754 double, so under ApolloCompatibilityTruncateFloatValues a rendered Float leaf must denote the same double as the payload's literal (it may be re-spelled without fraction / exponent; whether it is truncated is not judged); without the option numbers are compared exactly",
+		"value completion: with ApolloCompatibilityValueCompletionInExtensions the entries of extensions.valueCompletion are read as the reports the statement asks of errors (same coverage and path demands, match fact channel=valueCompletion); such entries for well-typed data are counted, not judged",
+		"RenameTypeNames: a selected __typename whose value is a configured From may be rendered as From or as its To; the runtime type used for type conditions is the payload's",
+		"options that only add response extensions (query plan, trace, inline arguments, rate-limit / authorizer extension, forwarded subgraph extensions, cost control) must leave data and errors as without them; the content of extensions is not judged beyond being a JSON object",
+		"SkipLoader deliberately renders data:null without loading: only syntax and envelope are judged (counted)",
+		"when the subgraph itself sends errors, the loader's forwarding / wrapping of them per the error options is not judged: error paths, coverage of replacements by errors and errors-on-well-typed are skipped for those renders (counted); syntax, envelope, type safety, keys, surviving values, justification of nulled positions and the exact projection are still judged",
 		"the root payload is always a JSON object (the loader, not the renderer, handles other shapes of a subgraph's data entry)",
 	}
 }
 
 func (c02) RequiredCounters(string) []string {
-	return []string{"renders", "renders_resolvable", "renders_resolver", "renders_engine", "class_clean", "class_null_only", "class_ill_typed", "offences_applied", "error_paths_checked", "positions_compared", "exact_compares", "trees", "trees_with_abstract", "trees_with_nested_list", "planner_trees_compared"}
+	return []string{"renders", "renders_resolvable", "renders_resolver", "renders_engine", "class_clean", "class_null_only", "class_ill_typed", "offences_applied", "error_paths_checked", "positions_compared", "exact_compares", "trees", "trees_with_abstract", "trees_with_nested_list", "planner_trees_compared",
+		"renders_with_options", "renders_with_options_resolvable", "renders_with_options_resolver", "renders_with_options_engine",
+		"opt_truncate_floats", "opt_value_completion", "opt_cost_control", "opt_rename_typenames", "opt_field_renderer", "opt_query_plan", "opt_trace", "opt_inline_arguments", "opt_rate_limit_ext", "opt_authorizer_ext", "opt_skip_loader",
+		"opt_forward_subgraph_extensions", "opt_subgraph_sends_extensions", "opt_subgraph_sends_errors", "opt_pass_through_errors",
+		"floats_compared_under_truncation", "floats_integral_under_truncation", "floats_fractional_under_truncation", "floats_beyond_int64_under_truncation", "floats_respelled_under_truncation",
+		"value_completion_entries", "value_completion_paths_checked", "replacements_covered_by_value_completion", "typenames_rendered_renamed", "responses_with_extensions"}
 }
 
 const (
@@ -71,7 +82,7 @@ type acc struct {
 
 func (a *acc) violate(kind, msg string, match map[string]string, detail map[string]any) {
 	cls := kind
-	for _, k := range []string{"panic", "doubled_last_element", "cause", "reason", "node", "rendered"} {
+	for _, k := range []string{"panic", "doubled_last_element", "cause", "reason", "node", "rendered", "option", "channel", "double_distance"} {
 		if v, ok := match[k]; ok {
 			cls += "|" + k + "=" + v
 		}
@@ -92,6 +103,7 @@ type renderCase struct {
 	j      *jv
 	opaque map[*jv]bool
 	offs   []offence
+	opts   *renderOpts // nil: default options (the base renders)
 }
 
 // judge renders through the chosen driver result and applies the oracle.
@@ -104,17 +116,36 @@ func (a *acc) judge(rc renderCase, payload []byte, rr renderResult) {
 	if class == classClean && len(rc.offs) > 0 {
 		res.Count("class_clean_with_offended_nullable_nulls", 1)
 	}
+	withOpts := !rc.opts.isDefault()
+	if withOpts {
+		res.Count("renders_with_options", 1)
+		res.Count("renders_with_options_"+rc.driver, 1)
+		res.Count("renders_with_options_class_"+strings.ReplaceAll(class, "-", "_"), 1)
+		for _, n := range rc.opts.names() {
+			res.Count("opt_"+n, 1)
+		}
+	}
 	detail := func() map[string]any {
 		d := map[string]any{"driver": rc.driver, "tree": rc.tree, "payload": string(payload), "offences": rc.offs, "class": class}
 		if rc.op != "" {
 			d["operation"] = rc.op
 		}
+		if withOpts {
+			d["options"] = rc.opts
+		}
 		return d
 	}
 	facts := func(m map[string]string) map[string]string {
+		if m == nil {
+			m = map[string]string{}
+		}
 		if rc.driver != "resolvable" {
 			// the renderer is the same code behind every driver; only note the driver when it is not the direct one
 			m["driver"] = rc.driver
+		}
+		if withOpts {
+			// input-based: the render ran with a non-default option set (the witness lists it)
+			m["non_default_options"] = "true"
 		}
 		return m
 	}
@@ -134,7 +165,15 @@ func (a *acc) judge(rc renderCase, payload []byte, rr renderResult) {
 		a.violate("render.error", "no response: the renderer returned an error: "+clip(rr.err.Error(), 200), facts(map[string]string{}), d)
 		return
 	}
-	v := checkRender(renderInput{root: rc.root, j: rc.j, opaque: rc.opaque, offs: rc.offs, out: rr.out})
+	v := checkRender(renderInput{root: rc.root, j: rc.j, opaque: rc.opaque, offs: rc.offs, out: rr.out, opts: rc.opts})
+	for n, c := range v.counts {
+		res.Count(n, c)
+	}
+	for set, items := range v.sets {
+		for _, it := range items {
+			res.Observe(set, it)
+		}
+	}
 	res.Count("positions_compared", v.positions)
 	res.Count("error_paths_checked", v.errorPaths)
 	res.Count("errors_seen", v.errors)
@@ -145,7 +184,7 @@ func (a *acc) judge(rc renderCase, payload []byte, rr renderResult) {
 		res.Count("responses_with_data_null", 1)
 	}
 	if v.positions > 0 {
-		k := fw.HashKey(rc.tree, payload)
+		k := fw.HashKey(rc.tree, payload, rc.opts.String())
 		if len(a.keys) < 2000 {
 			a.keys[k] = true
 		}
@@ -344,12 +383,17 @@ func (p c02) Run(c *fw.Ctx, idx int) fw.Result {
 	}
 	res.Count("cases_"+kind, 1)
 	r := c.Rng(idx, "c02")
+	// the option dimension draws from its own stream: the base cases stay what they were
+	ro := c.Rng(idx, "c02-opts")
+	caseRO := drawResolverOpts(ro)
 	s := genSchema(r, schemaOpts{dense: idx%2 == 1})
 	og := &opGen{r: r, s: s}
 	mp := &miniPlanner{s: s}
 	pg := &payloadGen{r: r}
 	switch kind {
 	case "S":
+		optResolver, cancelOptResolver := newOptionResolver(caseRO)
+		defer cancelOptResolver()
 		for t := 0; t < treesPerCase; t++ {
 			op := og.operation(1 + r.IntN(3))
 			root := mp.plan(op)
@@ -374,21 +418,36 @@ func (p c02) Run(c *fw.Ctx, idx int) fw.Result {
 				}
 				payload := marshal(j)
 				rc := renderCase{driver: "resolvable", root: root, tree: tree, op: opText, j: j, opaque: opaque, offs: offs}
-				a.judge(rc, payload, renderResolvable(root, payload))
-				if v == 1 || v == 5 {
+				a.judge(rc, payload, renderResolvable(root, payload, nil))
+				// the same (tree, payload) under a drawn non-default option set
+				rc.opts = drawDirectOpts(ro, root)
+				a.judge(rc, payload, renderResolvable(root, payload, rc.opts))
+				if v == 1 || v == 5 || v == 8 {
 					rc.driver = "resolver"
-					a.judge(rc, payload, renderResolver(root, payload))
+					if v != 8 {
+						rc.opts = nil
+						a.judge(rc, payload, renderResolver(sharedResolver(), root, payload, nil))
+					}
+					rc.opts = drawViaResolverOpts(ro, root, caseRO, true)
+					a.judge(rc, payload, renderResolver(optResolver, root, payload, rc.opts))
 				}
 			}
 		}
 	case "E":
-		rig, err := newEngineRig(s)
+		rig, err := newEngineRig(s, nil)
 		if err != nil {
 			res.Inconclusive = "engine-setup: " + clip(err.Error(), 300)
 			res.Observe("engine_setup_errors", clip(err.Error(), 200))
 			break
 		}
 		defer rig.cancel()
+		optRig, err := newEngineRig(s, caseRO)
+		if err != nil {
+			res.Inconclusive = "engine-setup: " + clip(err.Error(), 300)
+			res.Observe("engine_setup_errors", clip(err.Error(), 200))
+			break
+		}
+		defer optRig.cancel()
 		for t := 0; t < engineOps; t++ {
 			op := og.operation(1 + r.IntN(3))
 			opText := op.String()
@@ -418,8 +477,15 @@ func (p c02) Run(c *fw.Ctx, idx int) fw.Result {
 				payload := marshal(j)
 				rc := renderCase{driver: "engine", root: real, tree: rd, op: opText, j: j, opaque: opaque, offs: offs}
 				before := rig.tr.calls
-				rr := rig.execute(opText, payload)
+				rr := rig.execute(opText, payload, nil)
 				if rig.tr.calls == before && !rr.panicked {
+					res.Count("engine_runs_without_subgraph_call", 1)
+				}
+				a.judge(rc, payload, rr)
+				rc.opts = drawViaResolverOpts(ro, real, caseRO, true)
+				before = optRig.tr.calls
+				rr = optRig.execute(opText, payload, rc.opts)
+				if optRig.tr.calls == before && !rr.panicked {
 					res.Count("engine_runs_without_subgraph_call", 1)
 				}
 				a.judge(rc, payload, rr)
